@@ -69,7 +69,8 @@ FlowBumps(f, r, cur, cx) ==
     patch  |-> IF cur.pre.l = "none" /\ act THEN 1 ELSE NONE,
     label  |-> IF act THEN r.label ELSE "",
     prenum |-> IF act THEN (IF r.num # NONE THEN r.num ELSE HASH) ELSE NONE,
-    post   |-> IF act THEN (IF r.mode = "commit" THEN Or0(cx.distance) ELSE 1) ELSE NONE,
+    \* commit mode adds the distance (an unset distance renders as nothing: no bump at all)
+    post   |-> IF act THEN (IF r.mode = "commit" THEN cx.distance ELSE 1) ELSE NONE,
     dev    |-> IF (r.mode = "tag" /\ act) \/ (r.mode = "commit" /\ cx.dirty = 1) THEN NOW ELSE NONE ]
 \* overrides of pass two: only the post (explicit or the current one)
 FlowOverrides(cur) == [epoch |-> NONE, major |-> NONE, minor |-> NONE, patch |-> NONE, prenum |-> NONE,
@@ -106,6 +107,7 @@ Law(f) ==
      ELSE [ epoch |-> t.epoch, major |-> t.major, minor |-> t.minor,
             patch |-> IF t.pre.l = "none" THEN t.patch + 1 ELSE t.patch,
             pre   |-> [l |-> r.label, n |-> IF r.num # NONE THEN r.num ELSE HASH],
-            post  |-> Or0(t.post) + (IF r.mode = "commit" THEN Or0(cx1.distance) ELSE 1),
+            post  |-> IF r.mode = "commit" /\ cx1.distance = NONE THEN t.post      \* dirty, distance unknown
+                      ELSE Or0(t.post) + (IF r.mode = "commit" THEN cx1.distance ELSE 1),
             dev   |-> IF dirty \/ (r.mode = "tag" /\ ahead) THEN NOW ELSE NONE ]
 =============================================================================
